@@ -1,15 +1,47 @@
 """claims.py — what MANIFEST.json claims per property (edited as the development grows)."""
 NOTE_COMMON = ("Trusted: Coq 8.16.1 kernel; extraction (ExtrOcamlBasic only) and the OCaml driver; the hand-written "
-               "model's fidelity to /repo is established by sampled differential correspondence on every run, not proved; "
+               "model's fidelity to /repo is established by differential correspondence on every run, not proved; "
                "Python/fixedint semantics as modelled in Model/Base.v. ")
+TECH = "Coq proof about the executable model + differential correspondence model vs implementation + direct property search"
 CLAIMED = {
     "C01": {
         "text": "Theorems (Props/C01.v) prove for every instruction, operand, register file and memory that the modelled single-cycle "
-                "step equals a hand-written RV32IM reference (Spec/RV32IM.v) and lift it to runs of any length by induction; "
-                "the model is tied to /repo by per-mnemonic grids and random programs compared step by step.",
+                "step equals a hand-written RV32IM reference (Spec/RV32IM.v) and lift it to runs of any length by induction "
+                "(plus bit-level readings of the shifts, sign extension of immediates, x0/32-bit invariants, justification of the "
+                "C-string fuel); the model is tied to /repo by per-mnemonic grids and random programs compared step by step.",
         "note": NOTE_COMMON + "Float text of ecall 2 is a harness oracle; CSR/FENCE/EBREAK excluded by the property.",
         "technique": "Coq proof of model = ISA reference + differential correspondence model vs implementation",
     },
+    "C10": {
+        "text": "Props/C10.v proves, for every associativity and every finite in-range access history, that the modelled LRU order is a "
+                "permutation whose head is the least recently used block (never-accessed first, in index order), that the reported ages "
+                "are the inverse permutation consistent with recency, that the heap-array PLRU refines an inductive binary-tree PLRU "
+                "for every depth (victim walk and away-pointing update), and that access is idempotent. The model is tied to "
+                "replacement_strategies.py by exhaustive exploration of all reachable states for small associativities and random "
+                "histories up to 64 ways; the same histories are checked directly against reference definitions.",
+        "note": NOTE_COMMON + "Out-of-range block indices (which the cache never issues) are outside the theorems.",
+        "technique": TECH,
+    },
+    "C17": {
+        "text": "Props/C17.v proves for every width n>=1 and every integer v (negative and over-wide included) that the four strings the "
+                "modelled formatter produces read back (by small reading functions in Spec/Numerals.v) to v mod 2^n resp. its two's-"
+                "complement value, with exact digit counts and grouping 8/2 from the right, and that the memory table lists exactly "
+                "the aligned units containing a written cell, strictly ascending, with the current values. Tied to the code by "
+                "comparison of formatter and tables (exhaustive for widths 12 and 16 in the thorough tier) and a direct read-back "
+                "of the implementation's strings.",
+        "note": NOTE_COMMON + "Python's math.ceil(n/4) is modelled as exact integer ceiling (equal below 2^53).",
+        "technique": TECH,
+    },
+    "C18": {
+        "text": "Props/C18.v proves for a generic memory configuration (instantiated for the RISC-V byte memory and the TOY 16-bit memory) "
+                "that reads are the little-endian composition of the most recently written cells (zero where never written) after any "
+                "write history, that addresses wrap modulo 2^32 only when overflow is on, that an access errs iff a touched cell is out "
+                "of range (naming the first such cell; earlier cells of a failing write are written exactly as the Python loop does) and "
+                "that an access whose first cell is outside the range changes nothing. Tied to memory.py by random histories compared "
+                "op by op, also against a reference byte store.",
+        "note": NOTE_COMMON,
+        "technique": TECH,
+    },
 }
-_PENDING = "check not built yet in this round (model/theorems under construction); see DESIGN.md section 9"
+_PENDING = "check not built yet (model/theorems under construction); see DESIGN.md section 9"
 NOT_APPLICABLE = {f"C{i:02d}": _PENDING for i in range(1, 21) if f"C{i:02d}" not in CLAIMED}
